@@ -78,6 +78,9 @@ type Input struct {
 	FS     []Entry  `json:"fs"` // entries below Cfg.Base (absolute paths); created in order
 	Kernel KernelIn `json:"kernel"`
 	Steps  []StepIn `json:"steps"`
+	// CLI > 0: every step that has a process-level form is executed by the real binary
+	// cmd/layercake (see cli.go); the value varies where the global switches are put
+	CLI int `json:"cli,omitempty"`
 }
 
 // ---------------------------------------------------------------- observation types
@@ -103,6 +106,7 @@ type StepObs struct {
 	Layers  []LayerObs
 	HasL    bool
 	Order   []string // oracle: children in the order rename rewrote them
+	CLI     []string `json:",omitempty"` // the command line, when the step was run by the real binary
 }
 
 // ScratchBase is the directory every world lives in (wiped per case).
@@ -419,8 +423,17 @@ func Run(in Input) ([]Entry, []StepObs, error) {
 	fs0 := dumpTree(ScratchBase)
 	cur := fs0
 	var obs []StepObs
-	for _, st := range in.Steps {
-		o := runStep(in.Cfg, k, st)
+	cli := in.CLI > 0 && CLIAvailable() && stdConfigIs(in.Cfg)
+	for i, st := range in.Steps {
+		var o StepObs
+		if cli && cliEligible(in.Cfg, st) {
+			o = runStepCLI(in.Cfg, k, st, in.CLI+i)
+			if o.Res == "harness-error" {
+				return nil, nil, fmt.Errorf("process-level step %d: %s", i, o.Err)
+			}
+		} else {
+			o = runStep(in.Cfg, k, st)
+		}
 		next := dumpTree(ScratchBase)
 		o.Removed, o.Upsert = diffTree(cur, next)
 		cur = next
